@@ -9,14 +9,25 @@ import (
 	"sync"
 )
 
+// ArithDefsSMT reveals the meaning of the three opaque arithmetic functions
+// (Go's *, truncated / and %, before wrap64). The queries of the bounded tier
+// keep them uninterpreted (DESIGN 6.6: non-linear operations are opaque; real
+// code and reference build the same applications, applications to literals are
+// evaluated by the term constructors); OpTermsSMT hands the definitions out for
+// the bridge lemmas.
+const ArithDefsSMT = `(assert (forall ((a Int) (b Int)) (! (= (gomul a b) (* a b)) :pattern ((gomul a b)))))
+(assert (forall ((a Int) (b Int)) (! (= (godiv a b) (ite (= b 0) 0 (ite (>= a 0) (ite (> b 0) (div a b) (- (div a (- b)))) (ite (> b 0) (- (div (- a) b)) (div (- a) (- b)))))) :pattern ((godiv a b)))))
+(assert (forall ((a Int) (b Int)) (! (= (gomod a b) (- a (* b (godiv a b)))) :pattern ((gomod a b)))))
+`
+
 // PreludeSMT is the fixed part of every query of the bounded tier: the Val /
 // Err datatypes and Go's int64 arithmetic.  (No set-logic: core.Solve adds it.)
 const PreludeSMT = `(declare-datatypes ((Val 0)) (((VNil) (VDNE) (VBool (bval Bool)) (VInt (ival Int)) (VStr (sval Int)) (VIntList (ilid Int)) (VStrList (slid Int)) (VObj (oid Int)))))
 (declare-datatypes ((Err 0)) (((ENil) (EErr (eid Int)))))
 (define-fun wrap64 ((x Int)) Int (- (mod (+ x 9223372036854775808) 18446744073709551616) 9223372036854775808))
-(define-fun gomul ((a Int) (b Int)) Int (* a b))
-(define-fun godiv ((a Int) (b Int)) Int (ite (= b 0) 0 (ite (>= a 0) (ite (> b 0) (div a b) (- (div a (- b)))) (ite (> b 0) (- (div (- a) b)) (div (- a) (- b))))))
-(define-fun gomod ((a Int) (b Int)) Int (- a (* b (godiv a b))))
+(declare-fun gomul (Int Int) Int)
+(declare-fun godiv (Int Int) Int)
+(declare-fun gomod (Int Int) Int)
 (define-fun inrange64 ((v Val)) Bool (=> ((_ is VInt) v) (and (<= (- 9223372036854775808) (ival v)) (<= (ival v) 9223372036854775807))))
 `
 
